@@ -171,6 +171,15 @@ func c05Run(c *ev.Ctx) {
 			}
 			name := fmt.Sprintf("a%d", j%14)
 			s.Ops = append(s.Ops, hx.Op{K: "attr", Path: t, Name: name, Data: &v})
+			if r.Chance(1, 4) {
+				// the attribute just stored is replaced at once by a value of another size
+				// (delete + insert at the end of its storage), more attributes follow
+				v2 := genAttrVal(r, r.Bool())
+				if !v2.Supported() || len(v2.Bytes()) == len(v.Bytes()) {
+					v2 = hx.Val{Kind: "str", S: []string{strings.Repeat("r", 3+len(v.Bytes())%40)}}
+				}
+				s.Ops = append(s.Ops, hx.Op{K: "attr", Path: t, Name: name, Data: &v2})
+			}
 		}
 		if model[t].Kind == "dataset" && r.Chance(1, 3) {
 			s.Ops = append(s.Ops, hx.Op{K: "delattr", Path: t, Name: fmt.Sprintf("a%d", r.Intn(6))})
